@@ -16,7 +16,8 @@ CONSTANTS Langs,       \* subset of {"html", "xml", "json", "css", "svg", "js"}
           MaxF,        \* [language |-> length bound of fr]
           Precs,       \* set of precisions
           Vers,        \* set of ECMAScript versions
-          FullPairs    \* TRUE: sequences of length >= 2 under every wrap/delimiter set
+          FullPairs,   \* TRUE: sequences of length >= 2 under every wrap/delimiter set
+          AllBits      \* TRUE: all 2^7 HTML option sets; FALSE: a covering array of strength 3 (quick tier)
 VARIABLES lang, bits, dl, wrap, ver, prec, fr, on, inp
 vars == <<lang, bits, dl, wrap, ver, prec, fr, on, inp>>
 
@@ -114,9 +115,14 @@ Completion(act, s) ==
   IN [i \in 1..Len(need) |-> GuardFrag(need[i])]
 EffWrap(b, w) == IF lang = "html" /\ "KeepDocumentTags" \in OnSet(b) /\ w = 0 THEN 1 ELSE w
 
+(* 16 of the 128 HTML option sets such that every combination of values of any THREE options occurs
+   (the 2^(7-4) fractional factorial design of resolution IV: generators abc, abd, acd) *)
+Xor3(a, b, c) == (a + b + c) % 2
+Cover3 == {a + 2*b + 4*c + 8*d + 16*Xor3(a, b, c) + 32*Xor3(a, b, d) + 64*Xor3(a, c, d) :
+             a \in {0, 1}, b \in {0, 1}, c \in {0, 1}, d \in {0, 1}}
 Init ==
   /\ lang \in Langs
-  /\ bits \in 0..(Pow2(NB) - 1)
+  /\ bits \in (IF lang = "html" /\ ~AllBits THEN Cover3 ELSE 0..(Pow2(NB) - 1))
   /\ dl \in Dls
   /\ wrap \in Wraps
   /\ ver \in (IF lang = "js" THEN Vers ELSE {0})
@@ -148,6 +154,9 @@ Discriminating ==
     /\ \A o \in Active(bits, dl, ver, prec) : NeedsFrag(o) => Guarded(o, inp)
     /\ ("KeepDocumentTags" \in on /\ lang = "html") => wrap # 0
     /\ \A i \in 1..Len(inp) : FragById(inp[i]).tpl => dl # 0
+\* the covering array does cover: every triple of options takes all eight value combinations
+CoverOK == \A i, j, k \in 1..7 : (i < j /\ j < k) =>
+             \A x, y, z \in BOOLEAN : \E b \in Cover3 : Bit(b, i) = x /\ Bit(b, j) = y /\ Bit(b, k) = z
 \* the completion never needs more than one fragment per option and is idempotent
 CompletionSmall == Len(fr) > 0 => (Len(inp) <= Len(fr) + Len(OptOrder) /\ Completion(Active(bits, dl, ver, prec), inp) = <<>>)
 MaxFQuick == [html |-> 1, js |-> 1, xml |-> 2, json |-> 2, css |-> 2, svg |-> 2]
